@@ -31,6 +31,8 @@ LOCAL Logic(f, a, b, n) ==
      [] f = "mpn_xor_n" -> ZXor(a, b)
      [] f = "mpn_xnor_n" -> NotN(ZXor(a, b), n)
 
+RECURSIVE ErrSum(_, _, _, _)
+ErrSum(y, n, cs, k) == IF k > n THEN "0" ELSE ZAdd(ZMul(cs[k], ZLowBits(ZShr(y, 64 * (n - k)), 64)), ErrSum(y, n, cs, k + 1))     \* c[k] * y[n-k]
 PostN(f, i, o) ==
    CASE f \in ProdFuns -> /\ o.r = ZMul(i.a, i.b)
                           /\ (f = "mpn_mul" => o.top = ZShr(o.r, W * (i.an + i.bn - 1)))
@@ -50,6 +52,19 @@ PostN(f, i, o) ==
      [] f = "mpn_cmp" -> SgnI(o.ret) = ZCmp(i.a, i.b)
      [] f = "mpn_zero_p" -> Bool(o.ret, i.a = "0")
         \* composite kernels (used by Toom/FFT code)
+        \* add_err1_n.c: "{rp,n} := {up,n} + {vp,n} with incoming carry cy, return value is carry out; c[i+1] = carry from i-th limb addition (c[0] = cy);
+        \*  computes c[1]*yp[n-1] + ... + c[n]*yp[0], stores two-limb result at ep"; err2: the same with yp1 and yp2; sub_: borrows
+     [] f \in {"mpn_add_err1_n", "mpn_sub_err1_n", "mpn_add_err2_n", "mpn_sub_err2_n"} ->
+           LET add == f \in {"mpn_add_err1_n", "mpn_add_err2_n"}
+               cyz == ZFromInt(i.cy)
+               full == IF add THEN ZAdd(ZAdd(i.a, i.b), cyz) ELSE ZSub(ZSub(i.a, i.b), cyz)
+               C(k) == \* carry (borrow) out of the low k limbs
+                  IF add THEN ZShr(ZAdd(ZAdd(ZLowBits(i.a, 64 * k), ZLowBits(i.b, 64 * k)), cyz), 64 * k)
+                  ELSE IF ZIsNeg(ZSub(ZSub(ZLowBits(i.a, 64 * k), ZLowBits(i.b, 64 * k)), cyz)) THEN "1" ELSE "0"
+               E(y) == ErrSum(y, i.n, [k \in 1..i.n |-> C(k)], 1)
+           IN  /\ o.r = ZLowBits(full, 64 * i.n) /\ o.ret = C(i.n)
+               /\ o.e1 = ZLowBits(E(i.y1), 128)
+               /\ (f \in {"mpn_add_err2_n", "mpn_sub_err2_n"} => o.e2 = ZLowBits(E(i.y2), 128))
      [] f = "mpn_addadd_n" -> ZAdd(o.r, ZMul(o.cy, Bn(i.n))) = ZAdd(ZAdd(i.a, i.b), i.c) /\ Fits(o.r, i.n)
      [] f = "mpn_addsub_n" -> ZAdd(o.r, ZMul(ZFromInt(o.cyi), Bn(i.n))) = ZSub(ZAdd(i.a, i.b), i.c) /\ Fits(o.r, i.n)
      [] f = "mpn_subadd_n" -> ZSub(o.r, ZMul(o.cy, Bn(i.n))) = ZSub(ZSub(i.a, i.b), i.c) /\ Fits(o.r, i.n)
